@@ -24,10 +24,10 @@ func TestMain(m *testing.M) { vstat.Main(m) }
 type Client struct {
 	Spec     hellogen.Spec `json:"spec"`
 	PeerIP   string        `json:"peer_ip"`
-	Settings [][2]uint32   `json:"settings"` // HTTP/2 preamble of this client
-	WU       uint32        `json:"wu"`       // 0: no WINDOW_UPDATE in the preamble
-	Prio     bool          `json:"prio"`     // PRIORITY frame in the preamble
-	AltSpec  hellogen.Spec `json:"alt_spec"` // hello used after a reconnect
+	Settings [][2]uint32   `json:"settings"`  // HTTP/2 preamble of this client
+	WU       uint32        `json:"wu"`        // 0: no WINDOW_UPDATE in the preamble
+	Prio     bool          `json:"prio"`      // PRIORITY frame in the preamble
+	AltSpec  hellogen.Spec `json:"alt_spec"`  // hello used after a reconnect
 	SameAddr bool          `json:"same_addr"` // a reconnect comes from the same ip:port as the connection it replaces
 }
 
